@@ -458,7 +458,7 @@ func main() {
 		Scenarios: scenarios,
 		Config:    config,
 		Run:       run,
-		Rule:      "modes S/E with access tracking: workloads W1 (upstream traffic beside another upstream being opened, written and closed), W2 (upstream + downstream traffic with State() readers), W3 (link failure with an upstream and a downstream resuming), W4 (metadata, call and write around a reconnect), W6 (multi transport: writers, reader, last-used polling), W7 (sent storage from two streams); fault budget F, deviations <= P; every read/write of a field of a struct declared in the instrumented packages and every access of a map held in such a field is recorded; vector-clock happens-before detection with edges from mutex, rwmutex, channel, close, waitgroup, cond, atomic, go and timer operations only",
+		Rule:      "modes S/E with access tracking: workloads W1 (upstream traffic beside another upstream being opened, written and closed), W2 (upstream + downstream traffic with State() readers), W3 (link failure with an upstream and a downstream resuming), W4 (metadata, call and write around a reconnect), W6 (multi transport: writers, reader, last-used polling), W7 (sent storage from two streams), W8 (two upstreams and two downstreams resuming side by side, reads continuing while the ack flush fails); fault budget F, deviations <= P; every read/write of a field of a struct declared in the instrumented packages and every access of a map held in such a field is recorded; vector-clock happens-before detection with edges from mutex, rwmutex, channel, close, waitgroup, cond, atomic, go and timer operations only",
 		Assumptions: []string{
 			"watched: fields of named struct types of iscp, wire, transport/*, internal/*, encoding and the map objects they hold; not watched: slice elements, locals captured by closures, package-level variables, implicit struct copies through value receivers, third-party state",
 			"channel edges are accumulated per channel (an over-approximation of happens-before that can hide, never invent, a race)",
